@@ -21,6 +21,11 @@ def depth(n):
     return 1 + max([depth(c) for _, c in n['body']] or [0])
 
 
+def pair_dom(two):
+    """the matches of a two-variable rule: the assignments (x, y) in product order, their bits = x's two, y's two, the join bit"""
+    return [[i * 100 + j, [bi[0], bi[1], bj[2], bj[3], 1 if bi[0] == bj[2] else 0]] for i, bi in two['xs'] for j, bj in two['ys']]
+
+
 def nodes(n):
     yield n
     for _, c in n['body']:
@@ -72,6 +77,35 @@ class C12:
             body = prog['body']
             cand = [0] + [j for j in range(1, len(body)) if all(k == 'alt' for k, _ in body[j:])]
             case['splits'] = sorted(set(rng.sample(cand, min(len(cand), rng.choice([1, 1, 2])))))
+        if rng.random() < 0.3:
+            # TWO rule variables: a match is an assignment (x, y).  Bits 0-1 are attributes of x, 2-3 of y, bit 4 is the join
+            # x.b0 == y.b2; the base rule mentions both variables, so every branch is decided per assignment
+            # (EVERY branch condition mentions both variables - a conclusion is built once per row, from the first value of a variable
+            #  the row leaves open: a branch that fires on a row binding only x concludes for one y, which is not what "per assignment"
+            #  says and not what this check claims)
+            def both():
+                bx, by = rng.choice([0, 1]), rng.choice([2, 3])
+                return rng.choice([[[4, rng.randint(0, 1)]], [[bx, rng.randint(0, 1)], [by, rng.randint(0, 1)]],
+                                   [[bx, rng.randint(0, 1)], [4, rng.randint(0, 1)]], [[by, rng.randint(0, 1)], [4, rng.randint(0, 1)]]])
+
+            def regen(n, free):
+                n['cond'] = [[b, rng.randint(0, 1)] for b in sorted(rng.sample(range(5), rng.choice([1, 1, 2])))] if free else sorted(both())
+                for _, c in n['body']:
+                    regen(c, free)
+            if rng.random() < 0.5:
+                regen(prog, False)
+            else:
+                # ... or the base rule STARTS with the join (its first conjunct binds both variables in every row, true or false) and
+                # the other conditions are free to mention either variable alone
+                regen(prog, True)
+                prog['cond'] = [[4, rng.randint(0, 1)]] + ([[rng.randrange(4), rng.randint(0, 1)]] if rng.random() < 0.7 else [])
+            allx = [[i_, [i_ >> 1 & 1, i_ & 1, 0, 0]] for i_ in range(4)]
+            ally = [[i_, [0, 0, i_ >> 1 & 1, i_ & 1]] for i_ in range(4)]
+            xs = rng.sample(allx, rng.randint(2, 4))
+            ys = rng.sample(ally, rng.randint(2, 4))
+            case['two'] = dict(xs=xs, ys=ys)
+            case['dom'] = pair_dom(case['two'])
+            case.pop('splits', None)
         if rng.random() < 0.4:
             # the first evaluation is abandoned after 1-12 results (the three complete evaluations that are compared come after it)
             case['abandon'] = rng.randint(1, 12)
@@ -90,13 +124,16 @@ class C12:
     def canon(self, case, io):
         if not isinstance(io, dict):
             return io, io
-        tie = (io.get('tree_off'), io.get('tree_on'), io.get('off'))
+        rows = io.get('off')
+        if case.get('two') and isinstance(rows, str) and not rows.startswith('X'):
+            rows = sorted(rows.split(';'))           # two rule variables: the ORDER of the matches is not modelled
+        tie = (io.get('tree_off'), io.get('tree_on'), rows)
         prop = (io.get('tree_off'),) + tuple(sorted(io.get(k, 'X missing').split(';')) if not io.get(k, 'X').startswith('X') else io.get(k)
                                              for k in self.ROWS)
         return tie, prop
 
     def tie_view(self, case, mo):
-        return (mo[0], mo[0], mo[1])
+        return (mo[0], mo[0], sorted(mo[1].split(';')) if case.get('two') else mo[1])
 
     def prop_view(self, case, so):
         return (so[0],) + tuple(sorted(so[1].split(';')) for _ in self.ROWS)
@@ -117,6 +154,8 @@ class C12:
         d['depth_%d' % depth(p)] += 1
         if case.get('abandon'):
             d['after_an_abandoned_evaluation'] += 1
+        if case.get('two'):
+            d['two_rule_variables'] += 1
         if case.get('splits') is not None:
             d['grown_after_evaluation'] += 1
             d['grown_in_%d_blocks' % (len(case['splits']) + 1)] += 1
@@ -166,6 +205,15 @@ class C12:
             d = copy.deepcopy(case)
             d['abandon'] = case['abandon'] - 1
             yield d
+        if case.get('two'):
+            for side in ('xs', 'ys'):
+                for j in range(len(case['two'][side])):
+                    if len(case['two'][side]) > 1:
+                        d = copy.deepcopy(case)
+                        d['two'][side].pop(j)
+                        d['dom'] = pair_dom(d['two'])
+                        yield d
+            return
         for j in range(len(case['dom'])):
             if len(case['dom']) > 1:
                 d = copy.deepcopy(case)
